@@ -20,6 +20,7 @@ def check(run):
     res = E.run_sessions(run, sessions, need_lean=False)
     seen = set()
     lines, metas = [], []
+    n_long = 0
     for s, r in zip(sessions, res):
         if r["results"] is None:
             continue
@@ -45,8 +46,21 @@ def check(run):
                     if nd:
                         src = cborgen.parse(d2)[0]; run.count("rewrite: block-parameters-index of set 0 omitted")
                 new = cborgen.encode(src, rng, p, cborgen.unknown_member if rng.random() < 0.7 else None)
-                lines.append("rd %s %s" % (rng.choice(["s", "s", "f"]), new.hex()))
+                lines.append("rd %s %s" % (rng.choice(["s", "s", "f", "p"]), new.hex()))       # (p: a pipe fed while it is read - a stream that cannot seek)
                 metas.append((orig, data, new))
+            # an unknown member holding ONE long string - longer than what is left of the decoder's window, longer than a whole
+            # window - at the end of the first block, read from a string stream, a file and a pipe
+            blocks = top.children[2].children
+            if blocks and 0xa0 <= data[blocks[0].start] < 0xb7 and n_long < (6 if quick else 60):
+                b0 = blocks[0]
+                for L in (70000, 140000):
+                    payload = bytes((i * 7 + L) % 251 for i in range(L))
+                    new = (data[:b0.start] + bytes([data[b0.start] + 1]) + data[b0.start + 1:b0.end] + b"\x18\x63" +
+                           cborgen.head(rng.choice([2, 3]), L) + payload + data[b0.end:])
+                    for kind in ("s", "f", "p"):
+                        lines.append("rd %s %s" % (kind, new.hex())); metas.append((orig, data, new))
+                    n_long += 1
+    run.count("rewrite: unknown member with a string longer than a decoder window (string stream, file, pipe)", n_long)
     answers = G.run_rd(lines)
     lean = G.run_driver(["cdns " + l.split()[2] for l in lines]) if run.driver_ok else [None] * len(lines)
     # the MODEL of the struct reader (Model.Schema.readVal, the subject of C08.read_denotes) on the same rewritten files:
